@@ -70,11 +70,13 @@ def codeOf : GResult → Option Code
   | .res (.invalidParent ..) => some .tagExtensionInvalid
   | .res (.found ..) => none
 
-/-- `schema_namespace[:-1].isalpha()` for an ASCII namespace "xx:" -/
-def alphaPrefix (ns : Str) : Bool := !ns.dropLast.isEmpty && ns.dropLast.all Char.isAlpha
+/-- `schema_namespace[:-1].isalpha()`.  `alpha` is `str.isalpha` on one character: Lean has no Unicode
+tables, so for non-ASCII characters the predicate is DATA computed by CPython for the alphabet in use and
+handed in by the harness (as `Validate.CharData.alpha` is for C01); every statement is parametric in it. -/
+def alphaPrefix (alpha : Char → Bool) (ns : Str) : Bool := !ns.dropLast.isEmpty && ns.dropLast.all alpha
 
-/-- `_check_invalid_prefix_issues`: a non-empty namespace whose body is not alphabetic is flagged -/
-def prefixIssue (ns : Str) : Bool := !ns.isEmpty && !alphaPrefix ns
+/-- `_check_invalid_prefix_issues` (tag side): a non-empty namespace whose body is not alphabetic is flagged -/
+def prefixIssue (alpha : Char → Bool) (ns : Str) : Bool := !ns.isEmpty && !alphaPrefix alpha ns
 
 inductive LoadErr where
   | invalidLibraryPrefix                 -- INVALID_LIBRARY_PREFIX
@@ -82,10 +84,11 @@ inductive LoadErr where
   | duplicatePrefix                      -- SCHEMA_DUPLICATE_PREFIX
 deriving Repr, DecidableEq
 
-/-- `set_schema_prefix`: a colon is appended when missing; the body must be alphabetic -/
-def setPrefix (ns : Str) : Except LoadErr Str :=
+/-- `set_schema_prefix` (load side): a colon is appended when missing; the body must be alphabetic — the SAME
+test as on the tag side -/
+def setPrefix (alpha : Char → Bool) (ns : Str) : Except LoadErr Str :=
   let ns' := if !ns.isEmpty && ns.getLast? != some ':' then ns ++ [':'] else ns
-  if !ns'.isEmpty && !alphaPrefix ns' then .error .invalidLibraryPrefix else .ok ns'
+  if !ns'.isEmpty && !alphaPrefix alpha ns' then .error .invalidLibraryPrefix else .ok ns'
 
 /-! ### attribute lists: union over the members, names carrying the prefix -/
 
